@@ -85,6 +85,36 @@ def run(ctx):
         cases.append({"id": f"w{t}_late", "steps": late, "marks": lmarks})
         groups.append((f"w{t}", steps, marks, [f"w{t}_now", f"w{t}_late"]))
     cases.sort(key=lambda c: 0 if c["id"].startswith("w") else 1)      # the clock-sensitive replays start first
+    # a gc in which ONE particular block cannot be removed (a storage error, the same in every replay): which of the other
+    # unreferenced blocks go must not depend on the iteration order of the set of unreferenced blocks
+    for t in range(1 if quick else 4):
+        def ff(i, v):
+            return {"k": "f", "data": (b"%s-%03d" % (v, i)).hex(), "mode": 0o644, "mtime": 10**18 + i}
+        nf = ctx.rng.choice([24, 40])
+        ta = {"k": "d", "mode": 0o755, "mtime": 10**18, "c": {f"f{i:03d}": ff(i, b"old") for i in range(nf)}}
+        tb = {"k": "d", "mode": 0o755, "mtime": 10**18, "c": {"only": ff(0, b"new")}}
+        oo = {"meph": 100000, "mbs": 64, "sfc": 0}
+        pre_steps = [{"op": "init"}, {"op": "mktree", "path": "src", "tree": ta}, {"op": "backup", "opts": oo},
+                     {"op": "mktree", "path": "src", "tree": tb}, {"op": "backup", "opts": oo}, {"op": "arch"}]
+        probe = ctx.cvh_run([{"id": "p", "steps": pre_steps}]).get("p")
+        if probe is None:
+            continue
+        blocks = sorted(p for p in probe[5]["arch"]["files"] if p.startswith("d/"))
+        victim = blocks[len(blocks) // 2]
+        rule = ["RemoveFile", victim, 0, "PermissionDenied"]
+        steps = pre_steps + [{"op": "delete", "bands": [0], "plan": {"rules": [rule]}}, {"op": "arch"}]
+        marks = [{"kind": "init"}, {"kind": "mktree"}, {"kind": "backup"}, {"kind": "mktree"}, {"kind": "backup"}, {"kind": "arch"},
+                 {"kind": "delete"}, {"kind": "arch"}]
+        ids = []
+        for rt in ["current", "current", "multi2", "multi8", "current"]:
+            st2 = copy.deepcopy(steps)
+            for s_ in st2:
+                if s_["op"] in ("backup", "delete", "init"):
+                    s_["runtime"] = rt
+            cid = f"g{t}_{rt}_{len(ids)}"
+            ids.append(cid)
+            cases.append({"id": cid, "steps": st2, "marks": marks})
+        groups.append((f"g{t}", steps, marks, ids))
     res = ctx.cvh_run(cases, timeout=3000)
     hs = []
     for t, steps, marks, ids in groups:
